@@ -4,7 +4,8 @@ which check catches which change.  usage: mutants.py [name ...] [--tests]
 Each mutant: (name, file, old, new, [properties expected to fire]).
 Results are appended to /verif/mutants/results.jsonl."""
 import subprocess, sys, json, os, time
-REPO = "/repo"
+WORK = "/tmp/mutwork"
+REPO = WORK + "/repo"
 ENV = dict(os.environ, GOFLAGS="-mod=mod", GOPROXY="off", GOSUMDB="off", GOTOOLCHAIN="local")
 M = []
 def mut(name, file, old, new, props): M.append((name, file, old, new, props))
@@ -22,7 +23,9 @@ def sh(cmd, **kw):
 def main():
     args = [a for a in sys.argv[1:] if not a.startswith("--")]
     run_tests = "--tests" in sys.argv
-    assert sh("git -C /repo status --porcelain").stdout.strip() == "", "/repo not clean"
+    # work on a scratch copy of /repo and of the harness so that /repo stays untouched
+    sh("rm -rf %s && mkdir -p %s/home && cp -r /repo %s/repo && rm -rf %s/repo/.git && cp -r /verif/harness %s/harness && cp /verif/known_findings.json %s/home/" % (WORK, WORK, WORK, WORK, WORK, WORK))
+    sh("sed -i 's#=> /repo#=> %s/repo#' %s/harness/go.mod && cp /repo/go.sum %s/harness/go.sum" % (WORK, WORK, WORK))
     for name, file, old, new, props in M:
         if args and name not in args: continue
         path = os.path.join(REPO, file)
@@ -31,17 +34,17 @@ def main():
             print("SKIP %s: pattern occurs %d times" % (name, src.count(old))); continue
         open(path, "w").write(src.replace(old, new))
         try:
-            b = sh("cd /repo && go build ./... ")
+            b = sh("cd %s && go build ./... && cd %s/harness && CGO_ENABLED=0 go build -tags verif -o ../bin/vrun ./cmd/vrun && if echo '%s' | grep -q C08; then go build -race -tags verif -o ../bin/vrun.race ./cmd/vrun; fi" % (REPO, WORK, " ".join(props)))
             if b.returncode != 0:
                 print("NOBUILD", name, b.stderr[:300]); continue
             tests = None
             if run_tests:
-                t = sh("cd /repo && go test -vet=off -count=1 ./... 2>&1 | tail -5")
+                t = sh("cd %s && go test -vet=off -count=1 ./... 2>&1 | tail -5" % REPO)
                 tests = "FAIL" not in t.stdout
             res = {}
             for p in props:
                 t0 = time.time()
-                c = sh("cd /verif && ./check %s quick" % p)
+                c = sh("cd %s && VERIF_HOME=%s/home bin/vrun%s run %s quick" % (WORK, WORK, ".race" if p == "C08" else "", p))
                 viol = [l for l in c.stdout.splitlines() if l.startswith("VIOLATION")]
                 res[p] = {"exit": c.returncode, "violations": len(viol), "s": round(time.time() - t0, 1)}
             caught = [p for p in props if res[p]["exit"] == 1]
@@ -50,5 +53,5 @@ def main():
                 f.write(json.dumps({"mutant": name, "file": file, "tests_pass": tests, "results": res}) + "\n")
         finally:
             open(path, "w").write(src)
-    assert sh("git -C /repo status --porcelain").stdout.strip() == "", "/repo not clean after run"
+    sh("rm -rf %s" % WORK)
 main()
